@@ -93,6 +93,11 @@ partial def tyOf : Sexp → Option Ty
       let c ← ci.bool?
       let xs ← vs.mapM Sexp.str?
       pure (.enum xs c)
+  | .list (.atom "enumraw" :: ci :: vs) => do
+      -- NewEnumType(values as given, ci): lower-cased when case-insensitive, no values = the default Enum (`mkEnum`)
+      let c ← ci.bool?
+      let xs ← vs.mapM Sexp.str?
+      pure (mkEnum cfg xs c)
   | .list (.atom "pat" :: rs) => (rs.mapM Sexp.str?).map .pattern
   | .list [.atom "rx", s] => s.str?.map .regexp
   | .list [.atom "coll", lo, hi] => (rngOf lo hi).map .coll
